@@ -25,7 +25,8 @@ Inductive dobs := OOk (hi lo : N) | OErr (class : N).
 
 Inductive case :=
 | CEnc (hi lo c : N) (obs : list N)
-| CDec (ts : list token) (h0 l0 c : N) (obs : dobs).
+| CDec (ts : list token) (h0 l0 c : N) (obs : dobs)
+| CHist (steps : list (hop * N)).
 
 Definition cks_at (h0 l0 c : N) (hi lo : N) : N :=
   if (hi =? h0) && (lo =? l0) then c else 16.
@@ -36,6 +37,21 @@ Fixpoint list_eqb (a b : list N) : bool :=
   | x :: a', y :: b' => (x =? y) && list_eqb a' b'
   | _, _ => false
   end.
+
+(** History case: the calls the harness made on numbered seed buffers.  Every change of a
+    buffer (by SeedFromPhrase or by the caller) is projected to [HWrite b [id]], [id] naming the
+    32 bytes the buffer held afterwards (equal contents, equal id); a [HKey b i] step carries the
+    id of the key the real KeyFromSeed returned (equal keys, equal id; the number is ignored on the
+    other steps).  The model is run with symbolic hashing (H and the key generation are the
+    identity, so a model key *is* what is hashed: contents ++ le64 i); the real keys must be equal
+    exactly where the model's are: a key that depends on anything but the current contents of
+    the buffer and the index (an earlier call, the buffer's address) breaks the pattern. *)
+Definition hist_ok (steps : list (hop * N)) : bool :=
+  let ks := snd (hrun (fun _ _ => 0) (fun x => x) (list N) (fun x => x) (fun _ => []) (map fst steps)) in
+  let ids := flat_map (fun s => match fst s with HKey _ _ => [snd s] | _ => [] end) steps in
+  Nat.eqb (length ks) (length ids) &&
+  (let prs := combine ks ids in
+   forallb (fun a => forallb (fun b => Bool.eqb (list_eqb (fst a) (fst b)) (snd a =? snd b)) prs) prs).
 
 (** A case is checked against the hand-written model of Wallet/Seed.v and, when the
     harness could regenerate them from the current wallet/seed.go (go/ast translator,
@@ -53,12 +69,13 @@ Definition check_case_with (enc : (N -> N -> N) -> N -> N -> list N)
       | _, OOk _ _ => false
       | _, OErr _ => true
       end
+  | CHist steps => hist_ok steps
   end.
 
 (** rejected iff the phrase has a defect ([defects]: independent of any order of validation) *)
 Definition defects_agree (c : case) : bool :=
   match c with
-  | CEnc _ _ _ _ => true
+  | CEnc _ _ _ _ | CHist _ => true
   | CDec ts h0 l0 c obs =>
       let defective := match defects (cks_at h0 l0 c) ts with [] => false | _ => true end in
       match obs with OOk _ _ => negb defective | OErr _ => defective end
